@@ -217,7 +217,7 @@ def build_request(unit, inst, contracts):
             "path": c["path"].strip(),
             "mode": mode,
             "subst": sub,
-            "contract": subst_vars(c.get("contract", ""), inst),
+            "contract": subst_vars(c.get("contract " + mode, c.get("contract", "")), inst),
             "closures": {},
             "loops": {},
             "proofs": {},
